@@ -6,6 +6,7 @@ import (
 	"sort"
 	"sync"
 
+	"verifharness/enc"
 	"verifharness/fakeapi"
 	. "verifharness/kobj"
 	"verifharness/sched"
@@ -27,6 +28,7 @@ import (
 // nothing above it.
 func typedTree(c *Ctx, pkg typedPkg, seed int64, level int) {
 	var problems []string
+	var unitaryCases []enc.T
 	what := fmt.Sprintf("typed tree (Clone*/SubscribeForFilter/Refilter/unitary handler) of package %s next to its untyped twin, seed %d", pkg.name, seed)
 	c.Now(what)
 	base := sched.LibraryGoroutines()
@@ -104,6 +106,11 @@ func typedTree(c *Ctx, pkg typedPkg, seed int64, level int) {
 		var cbMu sync.Mutex
 		tcb := map[string][][2]string{}
 		ucb := map[string][][2]string{}
+		type rawcb struct {
+			what int // 0 create 1 update 2 delete 3 initialise
+			ids  []int
+		}
+		uraw := map[string][]rawcb{} // the untyped callbacks as they came, foreign objects included (for the model)
 		var tmons, umons []kcache.Monitor
 		addMonitors := func(name string, t *tctl, u kcache.Publisher) bool {
 			tm, err := t.unitary(pert.Log(), func(w string, id int) {
@@ -123,8 +130,18 @@ func typedTree(c *Ctx, pkg typedPkg, seed int64, level int) {
 				ucb[name] = append(ucb[name], [2]string{w, fmt.Sprint(ID(o))})
 				cbMu.Unlock()
 			}
+			raw := func(w int, objs ...metav1.Object) {
+				ids := make([]int, len(objs))
+				for i, o := range objs {
+					ids[i] = ID(o)
+				}
+				cbMu.Lock()
+				uraw[name] = append(uraw[name], rawcb{w, ids})
+				cbMu.Unlock()
+			}
 			um, _ := kcache.NewMonitor(u, kcache.BuildHandler().
 				OnInitialize(func(objs []metav1.Object) {
+					raw(3, objs...)
 					var own []metav1.Object
 					for _, o := range objs {
 						if !foreign[ID(o)] {
@@ -135,9 +152,9 @@ func typedTree(c *Ctx, pkg typedPkg, seed int64, level int) {
 						urec("init", own[0])
 					}
 				}).
-				OnCreate(func(o metav1.Object) { urec("create", o) }).
-				OnUpdate(func(o metav1.Object) { urec("update", o) }).
-				OnDelete(func(o metav1.Object) { urec("delete", o) }).Create())
+				OnCreate(func(o metav1.Object) { raw(0, o); urec("create", o) }).
+				OnUpdate(func(o metav1.Object) { raw(1, o); urec("update", o) }).
+				OnDelete(func(o metav1.Object) { raw(2, o); urec("delete", o) }).Create())
 			tmons = append(tmons, tm)
 			umons = append(umons, um)
 			return true
@@ -268,6 +285,37 @@ func typedTree(c *Ctx, pkg typedPkg, seed int64, level int) {
 			umons[i].Close()
 		}
 		pert.Barrier()
+		// to the model: the unitary handler's log = Typed.unitary_log of the untyped callbacks
+		rememberLog(srv)
+		toObj := func(id int) *Obj {
+			if o, ok := objByID[id]; ok {
+				return o
+			}
+			return &Obj{ID: id, Kind: foreignKind(pkg.kind), NS: 3, NM: 1, RV: "1", Spec: SNone}
+		}
+		wcode := map[string]int{"create": 0, "update": 1, "delete": 2, "init": 3}
+		cbMu.Lock()
+		for _, name := range []string{"controller", "Clone", "CloneWithFilter", "CloneForFilter"} {
+			var ul, tl []enc.T
+			for _, r := range uraw[name] {
+				if r.what == 3 {
+					objs := make([]*Obj, len(r.ids))
+					for i, id := range r.ids {
+						objs[i] = toObj(id)
+					}
+					ul = append(ul, enc.L(enc.I(3), EncObjs(objs)))
+				} else {
+					ul = append(ul, enc.L(enc.I(r.what), toObj(r.ids[0]).Enc()))
+				}
+			}
+			for _, e := range tcb[name] {
+				var id int
+				fmt.Sscan(e[1], &id)
+				tl = append(tl, enc.L(enc.I(wcode[e[0]]), enc.I(id)))
+			}
+			unitaryCases = append(unitaryCases, enc.L(enc.I(19), enc.I(pkg.kind), enc.L(ul...), enc.L(tl...)))
+		}
+		cbMu.Unlock()
 		if isClosed(tcff.done()) || isClosed(tc.done()) || isClosed(tcl.done()) || isClosed(tcf.done()) {
 			fail("closing a typed monitor stopped the typed controller or clone it was attached to")
 		}
@@ -333,6 +381,9 @@ func typedTree(c *Ctx, pkg typedPkg, seed int64, level int) {
 	}
 	for _, p := range problems {
 		c.Violation("", p+" ["+what+"]", replay)
+	}
+	for _, uc := range unitaryCases {
+		c.Case(uc)
 	}
 	c.DistinctCase("typed-tree-" + pkg.name)
 }
